@@ -208,7 +208,9 @@ class Repo:
         return None
 
     def module(self, short: str) -> ModuleInfo:
-        name = short if short.startswith(PACKAGE) else f"{PACKAGE}.{short}"
+        name = f"{PACKAGE}.{short}"
+        if name not in self.modules and short in self.modules:
+            name = short
         if name not in self.modules:
             raise AnalysisError(f"anchor module vanished: {name}")
         return self.modules[name]
